@@ -1,15 +1,37 @@
 #!/usr/bin/env python3
-"""MANIFEST.setup_cmd: build the Lean library, the model driver and the Rust harness, offline."""
+"""MANIFEST.setup_cmd: build the Lean library, the model driver and the three Rust harnesses, offline."""
 import os
 import sys
 sys.path.insert(0, os.path.dirname(os.path.abspath(__file__)))
 import hv
 
+ok = True
 ok1, log1 = hv.lake_build(["Honeycomb", "hcmodel"])
 if not ok1:
     print(log1[-4000:])
 ok2, log2 = hv.cargo_build()
 if not ok2:
     print(log2[-4000:])
-print("setup:", "lean ok" if ok1 else "lean FAILED", "/", "harness ok" if ok2 else "harness FAILED")
-sys.exit(0 if ok1 and ok2 else 1)
+msgs = ["lean ok" if ok1 else "lean FAILED", "harness ok" if ok2 else "harness FAILED"]
+ok = ok1 and ok2
+# the two slower harnesses (bevy; vendored fast-stm): built here so that the first quick check does not pay for them
+try:
+    from props import c20
+    r = c20.build_hcrender()
+    msgs.append("harness-render ok" if r[0] else "harness-render FAILED")
+    if not r[0]:
+        print(r[1][-3000:])
+    ok = ok and r[0]
+except Exception as e:  # noqa: BLE001
+    msgs.append(f"harness-render skipped ({e})")
+try:
+    from props import c07
+    r = c07.build_sched()
+    msgs.append("harness-sched ok" if r[0] else "harness-sched FAILED")
+    if not r[0]:
+        print(r[1][-3000:])
+    ok = ok and r[0]
+except Exception as e:  # noqa: BLE001
+    msgs.append(f"harness-sched skipped ({e})")
+print("setup:", " / ".join(msgs))
+sys.exit(0 if ok else 1)
